@@ -240,6 +240,10 @@ def run(ctx):
         else:
             ro.ok("%s: %d methods answer like the value deserializer" % (ty, len(maps)))
     borrow_and_newtype(ctx, serde, lexpr, acc)
+    # the text path: every i64 / u64 written by the printer is read back as that integer (shared with C05)
+    from . import c05
+    c05.int_boundary(ctx.rule("R-INT-BOUNDARY", "parse_num_tail stores boundary magnitudes as the exact integer: "
+                                                "[-2^63, 2^64-1] stays an integer, beyond that a float"), lexpr)
     ra = ctx.rule("R-ARITY", "every collector method records exactly one element / entry on each successful path "
                             "(a field or element that is skipped cannot be deserialized again)")
     na = 0
